@@ -751,6 +751,8 @@ class Parser:
                 start = {"lineno": atom.lineno, "col_offset": atom.col_offset}
                 node = xonsh_call(f"__xonsh__.{fn}", atom, **start, **tok.loc_end())
             else:
+                if not isinstance(atom, ast.Name):  # only a name can follow the dot: x?.y?, not x?."s"?
+                    self.raise_syntax_error_known_location("invalid syntax", atom)
                 attr_end = {"end_lineno": atom.end_lineno, "end_col_offset": atom.end_col_offset}
                 node = xonsh_call(
                     f"__xonsh__.{fn}",
